@@ -205,6 +205,8 @@ class Run:
             'new_findings': [fd.as_dict() for fd, _ in new],
             'cones': self.cones,
             'notes': self.notes,
+            'locals_normalised': {'%s::%s' % (m.rel, q): mp for m in self.repo.modules.values()
+                                  for q, mp in getattr(m, 'renamed_locals', [])},
         }
         if extra:
             cov.update(extra)
@@ -217,6 +219,9 @@ class Run:
                 'numba @njit kernels mutate ndarray arguments in place and return scalars by value',
                 'a pass means no structural necessary condition of the property is broken, not that the '
                 'behaviour was verified for all inputs',
+                'locals are alpha-normalised to their reference spelling before the rules run (pcverif/canon.py: the renaming '
+                'is injective and capture-free, so the analysed program is alpha-equivalent to the source); parameter names, '
+                'field names and the g*/p*/c* role naming scheme are trusted',
             ],
             'wall_s': round(wall, 3),
             'violations': len(new),
